@@ -4,6 +4,7 @@
 (*   [id, k |-> "chain", toks, tree]   tree must equal Prec(toks) (up to Norm)    *)
 (*   [id, k |-> "dec", ds, neg, t, d]  decimal literal: type and value            *)
 (*   [id, k |-> "radix", bits, t, d]   &H / &O literal                            *)
+(*   [id, k |-> "nradix", bits, t, d]  -&H / -&O literal (unary minus in front)    *)
 EXTENDS Expr, Json, IOUtils, TLC
 
 Recs == ndJsonDeserialize(IOEnv.TRACE)
@@ -18,6 +19,7 @@ Holds(r) ==
     [] r.k = "dec" -> LET e == DecLit(r.ds, r.neg) IN
                       r.t = e.t /\ (e.t # "D" => r.v = e.v)
     [] r.k = "radix" -> LET e == RadixLit(r.bits) IN r.t = e.t /\ (e.t # "overflow" => r.v = e.v)
+    [] r.k = "nradix" -> NegRadixOK(r.bits, r.t, r.v)
 
 Verdict == IF Holds(Recs[idx]) THEN TRUE ELSE PrintT("MISMATCH " \o ToString(Recs[idx].id))
 =============================================================================
